@@ -177,19 +177,34 @@ def expect_code(ref):
 CHECK = "(out.vartype.name, list(out.variables), [f for f in out.record.dtype.names if f not in ('sample', 'energy', 'num_occurrences')], rows_of(out))"
 
 
-def concat_ref(refs):
+NUMPY_FILL = {'ex': F(999999), 'ev': F(10) ** 20, 'zz': F(10) ** 20}     # numpy.ma.default_fill_value: int -> 999999, float -> 1e20
+WIDTH = {'ex': 1, 'ev': 2, 'zz': 1}
+
+
+def concat_ref(refs, defaults=None):
+    """the documented meaning of concatenate: rows of all sets in order, columns by label in the first set's order,
+    vartype of the first set; data vectors: the union of the fields in order of first appearance, a missing value is
+    the entry of `defaults` or NumPy's default fill value"""
     first = refs[0]
-    rows = [list(r) for r in first.rows]
+    fields = []
+    for o in refs:
+        for f in o.fields:
+            if f not in fields:
+                fields.append(f)
+    def lay(o, row):
+        return [list(row[3][o.fields.index(f)]) if f in o.fields else [F((defaults or {}).get(f, NUMPY_FILL[f]))] * WIDTH[f] for f in fields]
+    rows = [[list(r[0]), r[1], r[2], lay(first, r)] for r in first.rows]
     for o in refs[1:]:
+        src = o
         if o.vt != first.vt:
             o = o.change_vartype(first.vt, 0)
             if o is None:
                 return None
-        if set(o.labels) != set(first.labels) or len(o.labels) != len(first.labels) or o.fields != first.fields:
+        if set(o.labels) != set(first.labels) or len(o.labels) != len(first.labels):
             return None
         idx = [o.labels.index(v) for v in first.labels]
-        rows += [[[r[0][i] for i in idx], r[1], r[2], r[3]] for r in o.rows]
-    return Ref(first.vt, first.labels, first.fields, rows)
+        rows += [[[r[0][i] for i in idx], r[1], r[2], lay(src, r)] for r in o.rows]
+    return Ref(first.vt, first.labels, fields, rows)
 
 
 def same_up_to_ties(got_text, ref_all, ref_sel, key):
@@ -410,15 +425,30 @@ def history(ctx, r, lines, expect, meta):
                     continue      # numpy.lib.recfunctions cannot stack zero-width sub-array fields (IndexError inside numpy.ma)
                 k = r.randint(1, 2)
                 o_src, o_refs = [], []
+                mixed = r.random() < .4             # sample sets with different data vectors (stack_arrays fills the gaps)
                 for j in range(k):
-                    vt2 = ref.vt if r.random() < .8 else r.choice(['SPIN', 'BINARY'])
+                    vt2 = ref.vt if r.random() < .7 else r.choice(['SPIN', 'BINARY'])
                     labs2 = r.sample(ref.labels, len(ref.labels))
-                    s2, r2 = gen_ss(r, labels=labs2, vt=vt2, fields=ref.fields, dt=ss.record.sample.dtype.name)  # NumPy's stack_arrays wants equal field dtypes
+                    flds = [f for f in ['ex', 'ev'] if r.random() < .5] if mixed else ref.fields
+                    s2, r2 = gen_ss(r, labels=labs2, vt=vt2, fields=flds, dt=ss.record.sample.dtype.name,
+                                    m=r.choice([1, 2, 3]) if mixed else None)  # NumPy's stack_arrays wants equal field dtypes
                     o_src.append(s2.replace('ss = ', f'o{j} = ', 1)); o_refs.append(r2)
-                code = '\n'.join(o_src) + f"\nout = dimod.concatenate([ss, {', '.join('o%d' % j for j in range(k))}])"
-                exp = concat_ref([ref] + o_refs)
+                defaults = None
+                if mixed and r.random() < .5:
+                    defaults = {f: F(r.randint(-3, 3)) for f in ['ex', 'ev'] if r.random() < .7}
+                dsrc = '' if defaults is None else ', defaults={' + ', '.join(f'{f!r}: {int(v)}' for f, v in defaults.items()) + '}'
+                code = '\n'.join(o_src) + f"\nout = dimod.concatenate([ss, {', '.join('o%d' % j for j in range(k))}]{dsrc})"
+                exp = concat_ref([ref] + o_refs, defaults)
                 others = o_refs
-                line = 'concat 0 0,' + ','.join(str(j + 1) for j in range(k))
+                if mixed and len(ref.rows) == 0:
+                    continue
+                if mixed:
+                    ctx.tick('concat differing fields')
+                    fills = {f: (defaults or {}).get(f, NUMPY_FILL[f]) for f in ['ex', 'ev']}
+                    line = ('concatd 0 0,' + ','.join(str(j + 1) for j in range(k)) + ' '
+                            + ','.join(f"{f}={':'.join([rat(v)] * WIDTH[f])}" for f, v in fills.items()))
+                else:
+                    line = 'concat 0 0,' + ','.join(str(j + 1) for j in range(k))
             elif op == 'copy':
                 code = 'out = ss.copy()'; line = 'copy 0 0'; exp = ref.copy()
             elif op in ('first', 'data', 'samples'):
@@ -465,6 +495,11 @@ def history(ctx, r, lines, expect, meta):
                 bad = f'result `{got}` but the rows/columns selected by the definition are `{exp.text()}`'
         if bad is None and ok and not inplace and op != 'copy' and ss_text(ss) != before:
             bad = f'receiver changed by a non-mutating call: `{before}` -> `{ss_text(ss)}`'
+        if bad is None and ok and op == 'concat':
+            # every further input must come out of the call bit for bit as it went in (not only the first one)
+            for j, o in enumerate(others):
+                if ss_text(genv[f'o{j}']) != o.text():
+                    bad = f'receiver changed: input o{j} of concatenate was modified by the call: `{o.text()}` -> `{ss_text(genv["o%d" % j])}`'
         if bad:
             site = {'slice': 'SampleSet.slice', 'truncate': 'SampleSet.truncate', 'aggregate': 'SampleSet.aggregate', 'lowest': 'SampleSet.lowest',
                     'filter': 'SampleSet.filter', 'relabel': 'SampleSet.relabel_variables', 'relabel_ip': 'SampleSet.relabel_variables',
@@ -481,11 +516,16 @@ def history(ctx, r, lines, expect, meta):
                 rp = (PRE + full_src + f'\nR, A = rows_of(out), rows_of(ss)\nkeys = {keys!r}\n'
                       + (f'assert [x[{kidx}] for x in R] == keys, (R, keys)\n' if kidx else f'assert len(R) == len(keys)\n')
                       + 'assert all(R.count(x) <= A.count(x) for x in R), (R, A)')
+            elif 'input o' in bad:
+                names = ', '.join('o%d' % j for j in range(len(others))) + ','
+                head, tail = code.rsplit('\n', 1)
+                rp = (PRE + hist_src + '\n' + head + f'\nbefore = [(rows_of(o), list(o.variables), o.vartype) for o in ({names})]\n' + tail
+                      + f'\nassert [(rows_of(o), list(o.variables), o.vartype) for o in ({names})] == before, "an input was modified"')
             elif 'receiver changed' in bad:
                 rp = PRE + hist_src + '\nbefore = rows_of(ss), list(ss.variables), ss.vartype\n' + code + '\nassert (rows_of(ss), list(ss.variables), ss.vartype) == before, "receiver changed"'
             else:
                 rp = PRE + full_src + f'\nassert {CHECK} == {expect_code(exp)}, rows_of(out)'
-            ctx.fail('property', site, 'content', bad, repro=rp, detail=dict(source=full_src))
+            ctx.fail('property', site, 'an input changed by the call' if 'input o' in bad else 'content', bad, repro=rp, detail=dict(source=full_src))
             return
         # ---- (i) correspondence line
         if line is not None:
@@ -557,6 +597,8 @@ def observe(ctx, r, op, ss, ref, hist_src, lines, expect, meta):
         names = [f for f in ss.record.dtype.names if f not in REQ]
         exp = [(dict(zip(ref.labels, row[0])), row[1], row[2]) + tuple(row[3][ref.fields.index(f)] for f in names) + (i,) for i, row in rows]
         gotc = [({k: F(float(v)) for k, v in d[0].items()}, F(float(d[1])), int(d[2])) + tuple([F(float(x)) for x in np.atleast_1d(v)] for v in d[3:-1]) + (int(d[-1]),) for d in got]
+        bym = {None: 'none', 'energy': 'energy', 'num_occurrences': 'occ'}[by]
+        lines.append(f'dataorder 0 {bym} {int(rev)}'); expect.append('ok ' + (','.join(str(d[-1]) for d in gotc) or '-')); meta.append(('data', [hist_src], None))
         if gotc != exp:
             bad = f'data(sorted_by={by!r}, reverse={rev}, index=True) yields {gotc!r}, the definition gives {exp!r}'
             ctx.fail('property', 'SampleSet.data', 'content', bad,
@@ -578,6 +620,9 @@ def observe(ctx, r, op, ss, ref, hist_src, lines, expect, meta):
                 keys_ok = sorted(map(tuple, got)) == exp_sorted and [tuple(g) for g in got] == [tuple(row[0]) for row in sel.rows]
         else:
             keys_ok = got == [row[0] for row in sel.rows]
+        if keys_ok and got == [row[0] for row in sel.rows]:     # (with ties NumPy may pick another valid order: the model is the stable one)
+            lines.append(f"samples 0 {'-' if n is None else n} {'none' if by is None else 'energy'}")
+            expect.append('ok ' + ('|'.join(','.join(rat(x) for x in row) or '-' for row in got) or '-')); meta.append(('samples', [hist_src], None))
         if not keys_ok:
             bad = f'samples({n}, sorted_by={by!r}) gives {got!r}, the definition {[row[0] for row in sel.rows]!r}'
             ctx.fail('property', 'SampleSet.samples', 'content', bad,
